@@ -14,7 +14,7 @@ RULE = ("one evaluation = one history: up to 6 requests of random kinds (ping, l
         "out-of-order/duplicate/unknown delivery; distinct by (kinds, deliveries) hash")
 ASSUMPTIONS = ["reply shapes are the documented result shapes of vf/catalogue.py with id/from matched to the request",
                "only kinds for which the stack defines a reply entity are issued"]
-REQUIRED = ["histories", "callbacks_that_raised", "reissued_in_callback", "requests", "deliveries", "predicted_callbacks", "observed_callbacks", "delivery:result", "delivery:error", "delivery:duplicate",
+REQUIRED = ["internal:group-keyfetch", "internal_group_ok", "group_keyfetch_partial", "histories", "callbacks_that_raised", "reissued_in_callback", "requests", "deliveries", "predicted_callbacks", "observed_callbacks", "delivery:result", "delivery:error", "delivery:duplicate",
             "delivery:unknown-id", "delivery:non-reply", "delivery:foreign", "internal:key-fetch", "internal:key-upload"]
 TIMEOUT = {"quick": 600, "thorough": 7200}
 
@@ -354,6 +354,91 @@ def internal_requests(acc, seed, tag):
     acc.count("internal_ok")
 
 
+def internal_group_keyfetch(acc, seed, tag):
+    """The send layer's chain of internal requests for a first group message: group info, then one key request for all members
+    without session. The key result may leave members out (no keys in the directory) and may be replayed: the message goes
+    out exactly once, to the members that were keyed, and a replay changes nothing."""
+    from yowsup.axolotl.manager import AxolotlManager
+    from yowsup.layers.protocol_messages.protocolentities import TextMessageProtocolEntity
+    from yowsup.axolotl.factory import AxolotlManagerFactory
+    import binascii
+    r = gen.rng(seed, ID, tag)
+    AxolotlManager.COUNT_GEN_PREKEYS = 4
+    kit = stackkit.Kit(dict.fromkeys(stackkit.FLAGS, True), True)
+    w = {"tag": tag, "kind": "group-keyfetch"}
+    own = "%s@s.whatsapp.net" % kit.profile.config.phone
+    n = r.randint(2, 4)
+    peers = []
+    for i in range(n):
+        ph = "4918%d%s" % (i, gen.s_from(r, gen.DIGITS, 6))
+        m = AxolotlManagerFactory().get_manager("gpeer_%s_%d" % (tag.replace("/", "_"), i), ph)
+        m.level_prekeys(force=True)
+        peers.append((ph, m, m.load_unsent_prekeys()[0], m.load_latest_signed_prekey(generate=True)))
+    omitted = set(r.sample(range(n), r.randint(0, n - 1)))
+    gj = "%s-1500000000@g.us" % kit.profile.config.phone
+    acc.count("internal:group-keyfetch")
+    if omitted:
+        acc.count("group_keyfetch_partial")
+
+    def b(i, width):
+        return binascii.unhexlify(format(i, "x").zfill(width))
+
+    def user(ph, m, pk, spk):
+        return ("user", {"jid": "%s@s.whatsapp.net" % ph}, [("registration", {}, [], b(m.registration_id, 8)), ("type", {}, [], b"\x05"),
+                ("identity", {}, [], m.identity.getPublicKey().serialize()[1:]),
+                ("skey", {}, [("id", {}, [], b(spk.getId(), 6)), ("value", {}, [], spk.getKeyPair().getPublicKey().serialize()[1:]), ("signature", {}, [], spk.getSignature())], None),
+                ("key", {}, [("id", {}, [], b(pk.getId(), 6)), ("value", {}, [], pk.getKeyPair().getPublicKey().serialize()[1:])], None)], None)
+
+    def msgs():
+        return [x for x in kit.bottom.sent if x.tag == "message"]
+    try:
+        kit.clear()
+        kit.send(TextMessageProtocolEntity("hello group", to=gj))
+        infos = [treeeq.to_tuple(x) for x in kit.bottom.sent if x.tag == "iq" and x["xmlns"] == "w:g2"]
+        if len(infos) != 1:
+            acc.violation("internal-groupinfo-request:%d" % len(infos), "a first group message produced %d group info requests" % len(infos), w)
+            return
+        parts = [("participant", {"jid": own, "type": "admin"}, [], None)] + [("participant", {"jid": "%s@s.whatsapp.net" % p[0]}, [], None) for p in peers]
+        grp = ("group", {"id": gj.split("@")[0], "creator": own, "creation": "1500000000", "subject": "g", "s_t": "1500000000", "s_o": own}, parts, None)
+        kit.inject(("iq", {"id": infos[0][1]["id"], "type": "result", "from": gj}, [grp], None))
+        gets = [treeeq.to_tuple(x) for x in kit.bottom.sent if x.tag == "iq" and x["xmlns"] == "encrypt" and x["type"] == "get"]
+        if len(gets) != 1:
+            acc.violation("internal-group-keyfetch-request:%d" % len(gets), "the group info result produced %d key requests" % len(gets), w)
+            return
+        result = ("iq", {"id": gets[0][1]["id"], "type": "result", "from": S}, [("list", {}, [user(*p) for i, p in enumerate(peers) if i not in omitted], None)], None)
+        kit.inject(result)
+        first = len(msgs())
+        if first != 1:
+            acc.violation("internal-group-keyfetch-effect:%d-for-1" % first, "after the key result (%d of %d members keyed) the group message left %d times" % (n - len(omitted), n, first), w)
+            return
+        keyed = set()
+
+        def walk(nd):
+            if nd.tag == "to" and nd["jid"]:
+                keyed.add(nd["jid"])
+            for ch in nd.getAllChildren():
+                walk(ch)
+        walk(msgs()[0])
+        want = set("%s@s.whatsapp.net" % p[0] for i, p in enumerate(peers) if i not in omitted)
+        if keyed != want:
+            acc.violation("internal-group-keyfetch-recipients", "sender key distributed to %s, members with keys: %s" % (sorted(keyed), sorted(want)), w)
+            return
+        # replays: the same result again, and the group info result again
+        kit.inject(result)
+        kit.inject(("iq", {"id": infos[0][1]["id"], "type": "result", "from": gj}, [grp], None))
+        if len(msgs()) != 1:
+            acc.violation("internal-group-keyfetch-replay:%s" % ("partial" if omitted else "complete"), "a replayed key/group-info result made the message leave %d times" % len(msgs()), w)
+            return
+        more = [x for x in kit.bottom.sent if x.tag == "iq" and x["type"] == "get" and x["xmlns"] in ("encrypt", "w:g2")]
+        if len(more) != 2:
+            acc.violation("internal-group-keyfetch-replay-requests", "replayed results triggered further requests (%d in total)" % len(more), w)
+            return
+    except Exception as e:  # noqa
+        acc.violation("internal-group-keyfetch-raises:%s" % type(e).__name__, "group key fetch chain raised %r" % (e,), w)
+        return
+    acc.count("internal_group_ok")
+
+
 def shards(tier, seed, nworkers):
     q = tier == "quick"
     nsh = 6 if q else nworkers
@@ -372,6 +457,8 @@ def run(spec, acc):
             acc.sample(w)
     for i in range(spec["internal"]):
         internal_requests(acc, spec["seed"], "int/%d/%d" % (spec["shard"], i))
+        if i % 2 == 0:
+            internal_group_keyfetch(acc, spec["seed"], "intg/%d/%d" % (spec["shard"], i))
 
 
 def replay(spec, acc):
